@@ -28,7 +28,8 @@ run_demo() { # $1 = label ; prints PASS/FAIL
     done
   elif [ -f $SRC/demo.elk ]; then
     go build -o /tmp/mutout/elk-$NAME ./cmd/elk || { echo "BUILD FAILED"; return 2; }
-    (cd $SRC && ELKPATH=$WT timeout 120 /tmp/mutout/elk-$NAME run demo.elk > /tmp/mutout/demo-$NAME-$1.out 2>/tmp/mutout/demo-$NAME-$1.err)
+    DEMOENV=$(grep -E "demo.elk" $SRC/RUN.txt | grep -oE "ELK_[A-Z_]+=[0-9]+" | sort -u | head -4 | tr '\n' ' ')
+    (cd $SRC && env $DEMOENV ELKPATH=$WT timeout 300 /tmp/mutout/elk-$NAME run demo.elk > /tmp/mutout/demo-$NAME-$1.out 2>/tmp/mutout/demo-$NAME-$1.err)
     cmp -s /tmp/mutout/demo-$NAME-$1.out $SRC/expected_output.txt || ok=0
     rm -f /tmp/mutout/elk-$NAME
   else
